@@ -19,7 +19,7 @@ From Coq Require String.
 From Abasic Require Import Model.Bytes Model.Num Model.Token Model.Data Model.Lexer Gen.Tables
      Model.State Model.Eval Model.Interp Model.Analyzer Proofs.Monad Proofs.Frames Proofs.StoreProofs
      Proofs.Safety Proofs.AnalyzerFrame Proofs.AnalyzerProofs Proofs.AgreeProofs Proofs.Caps Proofs.CheckSound Proofs.CheckAgree Proofs.AnalyzerFns Proofs.AnalyzerSafety Proofs.AnalyzerTermination
-     Proofs.ProgSound.
+     Proofs.PlainToks Proofs.ProgSound Proofs.ProgSoundElse.
 Import ListNotations.
 Local Open Scope nat_scope.
 
@@ -194,6 +194,36 @@ Theorem C06_program_sound : forall fuel fi text,
     end.
 Proof. exact program_sound. Qed.
 
+(* ... AND WITH ELSE (Proofs/ProgSoundElse.v): the same theorem for programs whose
+   lines may contain ELSE anywhere — nested IF .. THEN .. ELSE to any depth,
+   clauses that are line numbers, transfers, loops, empty statements —; only
+   INPUT and DEF tokens are excluded ([clean2_program]).  A position the
+   interpreter can come to is accepted by the checker's walk or holds an ELSE
+   behind a THEN with no ":" in between (the dispatcher abandons the line
+   there); the end of a clause is a position after which the line goes on as
+   the checker saw it; the scan of a false IF is followed along the checker's
+   own run over the same tokens, everything a non-branching statement consumes
+   being neither ELSE nor ":" (Proofs/PlainToks.v).  The proof needs the IF
+   scan as repaired by fix cf302e8 (found by this proof's first attempt). *)
+Theorem C06_program_sound_else : forall fuel fi text,
+  line_bound text < fuel ->
+  forallb (fun msg => negb (is_error_msg msg)) (an_messages (analyze fuel text)) = true ->
+  clean2_program (st_toks (p_prog (pass1_of' text))) ->
+  forall line s0, state s0 = Idle -> st_toks s0 = st_toks (p_prog (pass1_of' text)) ->
+    st_keys s0 = st_keys (p_prog (pass1_of' text)) ->
+    caps_inv s0 -> command_of line = Some CRun ->
+    match start_evaluating fi line s0 with
+    | (Ok _, s1) => forall s, Reach fi s1 s -> state s = Running -> turn_ok fi s
+    | (Err e _, _) => benign e
+    | _ => True
+    end.
+Proof. exact program_sound_else. Qed.
+
+(* what an accepted expression is made of: operands, operators, parentheses, commas *)
+Theorem C06_expression_tokens : forall f n st t st',
+  analyze_expression f n st = (Ok t, st') -> PL exprtok (fst st) (fst st').
+Proof. intros f n. exact (apl_analyze_expression exprtok (fun t H => H) token_eqb_exprtok f n). Qed.
+
 (* its core: one turn from a state that satisfies the invariant *)
 Theorem C06_turn_sound : forall fa ptoks pkeys,
   (forall n ts, toks_get n ptoks = Some ts -> clean_line ts = true) ->
@@ -215,6 +245,37 @@ Definition C06_prog_lines : list String.string :=
    "100 IF I > 1 THEN PRINT I : GOTO 120"; "110 A$ = ""one"" : PRINT A$"; "120 RETURN"]%string.
 Definition C06_prog_text : bytes := List.concat (map (fun l => bs l ++ [10%N]) C06_prog_lines).
 Definition C06_prog_state : interp := run_state 100 init_interp (map (fun l => HLine (bs l)) C06_prog_lines).
+
+(* non-vacuity of the ELSE theorem: the line of finding cf302e8 among nested IF / ELSE lines *)
+Definition C06_else_lines : list String.string :=
+  ["10 A = 0 : B = 0 : FOR I = 1 TO 2"; "20 IF A THEN IF B THEN PRINT 1 ELSE : ELSE PRINT 2";
+   "30 IF I = 2 THEN GOSUB 100 ELSE IF B THEN 60 ELSE PRINT ""no"""; "40 NEXT I"; "50 END"; "60 PRINT ""never"" : END";
+   "100 IF A THEN RETURN ELSE PRINT ""sub"" : RETURN"]%string.
+Definition C06_else_text : bytes := List.concat (map (fun l => bs l ++ [10%N]) C06_else_lines).
+Definition C06_else_state : interp := run_state 100 init_interp (map (fun l => HLine (bs l)) C06_else_lines).
+
+Lemma clean2_program_check T : forallb (fun kv => clean2_line (snd kv)) T = true -> clean2_program T.
+Proof.
+  induction T as [|[k v] T IH]; intros H n ts E; cbn [toks_get] in E; [discriminate E|].
+  cbn [forallb snd] in H. apply andb_prop in H as [H1 H2].
+  destruct (k =? n)%N; [injection E as <-; exact H1 | exact (IH H2 n ts E)].
+Qed.
+
+Example C06_else_example :
+  line_bound C06_else_text < 200
+  /\ forallb (fun msg => negb (is_error_msg msg)) (an_messages (analyze 200 C06_else_text)) = true
+  /\ clean2_program (st_toks (p_prog (pass1_of' C06_else_text)))
+  /\ state C06_else_state = Idle
+  /\ st_toks C06_else_state = st_toks (p_prog (pass1_of' C06_else_text))
+  /\ st_keys C06_else_state = st_keys (p_prog (pass1_of' C06_else_text))
+  /\ caps_inv C06_else_state
+  /\ fst (start_evaluating 200 (bs "RUN") C06_else_state) = Ok tt.
+Proof.
+  split; [vm_compute; repeat constructor|]. split; [vm_compute; reflexivity|].
+  split; [apply clean2_program_check; vm_compute; reflexivity|].
+  split; [vm_compute; reflexivity|]. split; [vm_compute; reflexivity|]. split; [vm_compute; reflexivity|].
+  split; [apply caps_reachable, caps_init | vm_compute; reflexivity].
+Qed.
 
 Lemma clean_program_check T : forallb (fun kv => clean_line (snd kv)) T = true -> clean_program T.
 Proof.
@@ -281,3 +342,5 @@ Print Assumptions C06_evaluated_expression_is_not_rejected.
 Print Assumptions C06_executed_statement_is_not_rejected.
 Print Assumptions C06_program_sound.
 Print Assumptions C06_turn_sound.
+Print Assumptions C06_program_sound_else.
+Print Assumptions C06_expression_tokens.
